@@ -189,6 +189,27 @@ def brCounterNew (r : VBr) : Except Panic Geo :=
   if leapNewOk r.bucketCount r.ivl then .ok ⟨r.bucketCount, r.ivl / r.bucketCount⟩
   else .error (.unwrapErr "CounterLeapArray::new")
 
+/-- the sample count `generate_stat_for` (flow rule manager) derives from a rule's statistic interval, default configuration -/
+def flowSampleCount (ivl : Nat) : Nat := if ivl > 500 ∧ ivl < 10000 ∧ ivl % 500 = 0 then ivl / 500 else 1
+
+/-- which statistic a flow rule gets -/
+inductive FlowStatKind where
+  | default                      -- the resource node's default metric
+  | reuse (sc ivl : Nat)         -- a reader over the resource node's global window
+  | priv (sc ivl : Nat)          -- its own `BucketLeapArray` with a reader of the same geometry
+  deriving Repr, DecidableEq, Inhabited
+
+/-- `generate_stat_for` with its fallible steps explicit (default configuration: global window 20 x 500 ms): an `Err` of any step makes
+`build_resource_traffic_shaping_controller` skip the rule - an accepted rule would then be neither reported nor enforced -/
+def flowStatNew (ivl : Nat) : Except String FlowStatKind :=
+  if ivl = 0 ∨ ivl = 1000 then .ok .default
+  else
+    let sc := flowSampleCount ivl
+    if checkReuse sc ivl 20 10000 = 0 then .ok (.reuse sc ivl)            -- `generate_read_stat` repeats the same check
+    else if !leapNewOk sc ivl then .error "BucketLeapArray::new"
+    else if checkReuse sc ivl sc ivl ≠ 0 then .error "SlidingWindowMetric::new"
+    else .ok (.priv sc ivl)
+
 /-- the guarded indexing of `Controller::extract_list_args`, `args[idx as usize]` explicit -/
 def argAtIdx (args : List String) (idx : Int) : Except Panic (Option String) :=
   if idx < 0 then .ok none
